@@ -18,6 +18,12 @@ Pairs   == { <<R("f1", 3, 2, 0), R("f2", 2, 1, 8)>>, <<R("f1", 2, 1, 3), R("f2",
              <<R("f1", 3, 1, 8), R("f2", 1, 1, 3), R("f3", 2, 1, 6)>> }
 SetsSmall == { <<R("f1", 3, 2, 0)>>, <<R("f1", 2, 1, 3)>>, <<R("f1", 2, 1, 6)>>, <<R("f1", 2, 1, 8)>> } \cup Pairs
 SetsAll == Singles \cup Pairs
+\* a memory-adaptive rule (allows 3 tokens below 1024 bytes, 1 above 2048, interpolated between), alone and
+\* next to a fixed rule
+M(id, iv) == [id |-> id, res |-> "r1", thr |-> <<1, 1>>, I |-> iv, calc |-> "mem", lmu |-> 3, hmu |-> 1, mlw |-> 1024, mhw |-> 2048]
+SetsMem == { <<M("f1", 0)>>, <<M("f1", 8)>>, <<M("f1", 0), R("f2", 2, 1, 8)>> }
+MemEvents == IF \E r \in given : IsMem(r)
+             THEN {[e |-> "sysmem", v |-> v, t |-> now] : v \in {0, 1024, 1536, 2048, 3000}} ELSE {}
 
 ResetEvents == {[e |-> "reset", t |-> 0, cfg |-> Cfg, align |-> 48, obs |-> 0]}   \* align: the harness epoch is a multiple of every interval
 LoadEvents == {[e |-> "load", fam |-> "flow", op |-> "all", t |-> now, rules |-> rs] : rs \in RuleSets}
@@ -40,7 +46,7 @@ ReloadEvents ==
 
 MCEvents == IF ~on THEN ResetEvents
             ELSE IF given = {} THEN LoadEvents
-            ELSE EnterEvents \cup AdvEvents \cup ReloadEvents
+            ELSE EnterEvents \cup AdvEvents \cup ReloadEvents \cup MemEvents
 
 MCInit == FlowInit /\ hist = <<>> /\ nrel = 0
 MCNext == \E ev \in MCEvents : /\ Step(ev) /\ hist' = (IF GenMode THEN Append(hist, ev) ELSE <<>>)
